@@ -203,8 +203,9 @@ func cliExit(r *Run) {
 	}
 
 	// ---- state ----
-	states := []string{"intact", "repairable", "unrepairable", "no-parity", "damaged-index", "missing-index", "recovery-subset-lost"}
-	state := states[t.Pick([]int{2, 5, 3, 2, 1, 1, 2}, "state")]
+	states := []string{"intact", "repairable", "unrepairable", "no-parity", "damaged-index", "missing-index", "recovery-subset-lost", "damaged-recovery-file"}
+	state := states[t.Pick([]int{2, 5, 3, 2, 1, 1, 2, 1}, "state")]
+	recoveryDamaged := false
 	r.Probe("state:" + state)
 	recPaths := w.RecoveryPaths()
 	capacity := w.R // recovery blocks (PAR2) / volumes (PAR1)
@@ -325,6 +326,28 @@ func cliExit(r *Run) {
 			garble(t.Draw(len(w.Files), "which"))
 			state = "recovery-subset-lost+damaged"
 		}
+	case "damaged-recovery-file":
+		// one recovery file is damaged (cut short or a byte flipped), the
+		// data intact or damaged as well; gopar may refuse the whole set
+		if len(recPaths) > 0 {
+			p := recPaths[t.Draw(len(recPaths), "which-rec")]
+			b, _ := w.Disk.Get(p)
+			b = append([]byte(nil), b...)
+			if len(b) > 8 {
+				if t.Bool(1, 2, "cut") {
+					b = b[:len(b)/2+t.Draw(len(b)/2, "cut-at")]
+				} else {
+					b[t.Draw(len(b), "off")] ^= 0x10
+				}
+				w.Disk.Put(p, b)
+				recoveryDamaged = true
+				r.Logf("state: recovery file %s damaged", filepath.Base(p))
+			}
+		}
+		if t.Bool(1, 2, "and-damage") {
+			garble(t.Draw(len(w.Files), "which"))
+			state = "damaged-recovery-file+damaged"
+		}
 	case "damaged-index":
 		b, _ := w.Disk.Get(w.Index)
 		b = append([]byte(nil), b...)
@@ -409,6 +432,12 @@ func cliExit(r *Run) {
 	ver := r.RunPar(cwd, vargs...)
 	desc := fmt.Sprintf("%s(needed=%v possible=%v)", state, needed, possible)
 	switch {
+	case recoveryDamaged:
+		if needed {
+			check(ver, "par verify", notIn(0, 3), "not 0 and not 3 (data damaged, a recovery file damaged)", desc)
+		} else {
+			check(ver, "par verify", notIn(3), "not 3 (data intact, a recovery file damaged)", desc)
+		}
 	case indexBad:
 		check(ver, "par verify", notIn(0, 3), "not 0 and not 3 (index unusable)", desc)
 	case !needed:
@@ -439,6 +468,8 @@ func cliExit(r *Run) {
 	rep := r.RunPar(cwd, rargs...)
 	rw.Pull()
 	switch {
+	case recoveryDamaged:
+		check(rep, "par repair", notIn(3), "not 3 (a recovery file damaged)", desc)
 	case indexBad:
 		check(rep, "par repair", notIn(0, 3), "not 0 and not 3 (index unusable)", desc)
 	case !needed:
